@@ -321,6 +321,15 @@ func init() {
 		// powers changing between vote and tally, unbonding, an unbonded validator and its orchestrator voting
 		cases = append(cases, MultiCase{Name: "powers=[10 10 10 unbonded]+staking ops", Spec: NewC02([]int64{10, 10, 10, 0}, 1, true), Cfg: engine.Config{MaxDepth: depth, Deadline: 2 * dl, ReplayLeaf: 10}})
 		cases = append(cases, MultiCase{Name: "powers=[50 30 20]+staking ops", Spec: NewC02([]int64{50, 30, 20}, 1, true), Cfg: engine.Config{MaxDepth: depth, Deadline: 2 * dl, ReplayLeaf: 10}})
+		tn := NewC02([]int64{10, 10, 10}, 1, false)
+		tn.TopNonce = true
+		cases = append(cases, MultiCase{Name: "powers=[10 10 10], validator A may claim the nonce 2^64-1", Spec: tn, Cfg: engine.Config{MaxDepth: depth, Deadline: dl, ReplayLeaf: 10}})
+		// the quorum is two thirds of ALL bonded power: validators that registered no keys for the chain count in the total
+		for _, pv := range [][]int64{{20, 20, 60}, {30, 30, 40}, {33, 33, 34}} {
+			kl := NewC02(pv, 1, false)
+			kl.Keyless = []int{2}
+			cases = append(cases, MultiCase{Name: fmt.Sprint("powers=", pv, ", the last validator without keys for the chain"), Spec: kl, Cfg: engine.Config{MaxDepth: depth, Deadline: dl, ReplayLeaf: 10}})
+		}
 		return cases, []string{
 			"deposit events only (effects are C03's matter), one chain, 2 event nonces x 2 conflicting variants; signer kinds: validator account, its orchestrator, a stranger account",
 			"staking is a scripted table; SetPower/Unbond/Rebond may happen between any two transactions (over-approximates x/staking, whose changes land at its EndBlocker, which runs before mhub2's)",
